@@ -986,3 +986,355 @@ Proof.
       apply (ext_seteq s F (restr (args F) S)); [|apply Hall; right; exact HF].
       apply seteq_sym. apply restr_restr_sub. intros a Ha. exact (in_concat_map_args r F a HF Ha).
 Qed.
+
+(* ------------------------------------------------------------------ *)
+(** * B. Renaming *)
+
+Definition rename (f : nat -> nat) (F : af) : af :=
+  {| args := map f (args F); atts := map (fun p => (f (fst p), f (snd p))) (atts F) |}.
+
+Definition inj_on (f : nat -> nat) (l : list nat) : Prop :=
+  forall a b, In a l -> In b l -> f a = f b -> a = b.
+
+Lemma NoDup_map_inj_on : forall f l, NoDup l -> inj_on f l -> NoDup (map f l).
+Proof.
+  intros f l H. induction H as [|x r Hx Hr IH]; intros Hinj; cbn [map]; constructor.
+  - intros Hin. apply in_map_iff in Hin. destruct Hin as [y [E Hy]].
+    assert (y = x).
+    { apply Hinj; [right; exact Hy | left; reflexivity | exact E]. }
+    subst y. exact (Hx Hy).
+  - apply IH. intros a b Ha Hb. apply Hinj; right; assumption.
+Qed.
+
+Section Rename.
+  Variable f : nat -> nat.
+  Variable F : af.
+  Hypothesis Hwf : wf F.
+  Hypothesis Hinj : inj_on f (args F).
+
+  Local Notation R := (rename f F).
+
+  Lemma in_args_rename : forall x, In x (args R) <-> exists a, In a (args F) /\ x = f a.
+  Proof.
+    intros x. unfold rename. cbn [args]. rewrite in_map_iff. split.
+    - intros [a [E Ha]]. exists a. split; [exact Ha | symmetry; exact E].
+    - intros [a [Ha E]]. exists a. split; [symmetry; exact E | exact Ha].
+  Qed.
+
+  Lemma att_rename_inv : forall x y,
+    att R x y -> exists a b, x = f a /\ y = f b /\ att F a b.
+  Proof.
+    intros x y H. unfold att, rename in H. cbn [atts] in H. apply in_map_iff in H.
+    destruct H as [[a b] [E H]]. cbn [fst snd] in E. inversion E; subst.
+    exists a, b. split; [reflexivity|]. split; [reflexivity | exact H].
+  Qed.
+
+  Lemma att_rename : forall a b, att F a b -> att R (f a) (f b).
+  Proof.
+    intros a b H. unfold att, rename. cbn [atts]. apply in_map_iff.
+    exists (a, b). split; [reflexivity | exact H].
+  Qed.
+
+  Lemma att_rename_iff : forall a b, In a (args F) -> In b (args F) ->
+    (att R (f a) (f b) <-> att F a b).
+  Proof.
+    intros a b Ha Hb. split; [|apply att_rename].
+    intros H. apply att_rename_inv in H. destruct H as [a' [b' [Ea [Eb H]]]].
+    destruct (proj2 Hwf a' b' H) as [Ia Ib].
+    apply (Hinj a a' Ha Ia) in Ea. apply (Hinj b b' Hb Ib) in Eb. subst a' b'. exact H.
+  Qed.
+
+  Lemma in_map_inj : forall S a, incl S (args F) -> In a (args F) ->
+    (In (f a) (map f S) <-> In a S).
+  Proof.
+    intros S a HS Ha. split; [|apply in_map].
+    intros H. apply in_map_iff in H. destruct H as [a' [E Ha']].
+    apply (Hinj a' a (HS a' Ha') Ha) in E. subst a'. exact Ha'.
+  Qed.
+
+  Lemma incl_map_inj : forall S T, incl S (args F) -> incl T (args F) ->
+    (incl (map f S) (map f T) <-> incl S T).
+  Proof.
+    intros S T HS HT. split.
+    - intros H a Ha. apply (in_map_inj T a HT (HS a Ha)). apply H. apply in_map. exact Ha.
+    - intros H. apply incl_map. exact H.
+  Qed.
+
+  Lemma incl_map_args : forall S, incl S (args F) -> incl (map f S) (args R).
+  Proof. intros S H. unfold rename. cbn [args]. apply incl_map. exact H. Qed.
+
+  Lemma wf_rename : wf R.
+  Proof.
+    split.
+    - unfold rename. cbn [args]. apply NoDup_map_inj_on; [exact (proj1 Hwf) | exact Hinj].
+    - intros x y H. apply att_rename_inv in H. destruct H as [a [b [Ea [Eb H]]]]. subst x y.
+      destruct (proj2 Hwf a b H) as [Ia Ib].
+      split; apply in_args_rename; [exists a | exists b]; split; auto.
+  Qed.
+
+  (* preimage of a set of renamed arguments *)
+  Definition pre (T : list nat) : list nat := filter (fun a => memb (f a) T) (args F).
+
+  Lemma in_pre : forall T a, In a (pre T) <-> In a (args F) /\ In (f a) T.
+  Proof. intros T a. unfold pre. rewrite filter_In, memb_In. reflexivity. Qed.
+
+  Lemma pre_incl : forall T, incl (pre T) (args F).
+  Proof. intros T a H. apply in_pre in H. tauto. Qed.
+
+  Lemma pre_seteq : forall T, incl T (args R) -> seteq T (map f (pre T)).
+  Proof.
+    intros T HT x. split.
+    - intros Hx. destruct (proj1 (in_args_rename x) (HT x Hx)) as [a [Ha E]]. subst x.
+      apply in_map. apply in_pre. split; assumption.
+    - intros Hx. apply in_map_iff in Hx. destruct Hx as [a [E Ha]]. subst x.
+      apply in_pre in Ha. tauto.
+  Qed.
+
+  Lemma pre_map : forall S, incl S (args F) -> seteq (pre (map f S)) S.
+  Proof.
+    intros S HS a. rewrite in_pre. split.
+    - intros [Ha H]. apply (in_map_inj S a HS Ha). exact H.
+    - intros H. split; [apply HS; exact H | apply in_map; exact H].
+  Qed.
+
+  Lemma cf_rename : forall S, incl S (args F) -> (cf R (map f S) <-> cf F S).
+  Proof.
+    intros S HS. split.
+    - intros H a b Ha Hb Hab. apply (H (f a) (f b)); [apply in_map; exact Ha | apply in_map; exact Hb|].
+      apply att_rename. exact Hab.
+    - intros H x y Hx Hy Hxy. apply in_map_iff in Hx. apply in_map_iff in Hy.
+      destruct Hx as [a [Ea Ha]]. destruct Hy as [b [Eb Hb]]. subst x y.
+      apply (H a b Ha Hb). apply (att_rename_iff a b (HS a Ha) (HS b Hb)). exact Hxy.
+  Qed.
+
+  Lemma defends_rename : forall S a, incl S (args F) -> In a (args F) ->
+    (defends R (map f S) (f a) <-> defends F S a).
+  Proof.
+    intros S a HS Ha. split.
+    - intros H b Hb. destruct (H (f b) (att_rename b a Hb)) as [z [Hz Hzb]].
+      apply in_map_iff in Hz. destruct Hz as [c [E Hc]]. subst z.
+      exists c. split; [exact Hc|].
+      apply (att_rename_iff c b (HS c Hc) (proj1 (proj2 Hwf b a Hb))). exact Hzb.
+    - intros H y Hy. destruct (att_rename_inv y (f a) Hy) as [b' [a' [Ey [Ea Hba]]]].
+      destruct (proj2 Hwf b' a' Hba) as [Ib Ia].
+      apply (Hinj a a' Ha Ia) in Ea. subst a' y.
+      destruct (H b' Hba) as [c [Hc Hcb]].
+      exists (f c). split; [apply in_map; exact Hc | apply att_rename; exact Hcb].
+  Qed.
+
+  Lemma in_range_rename : forall S a, incl S (args F) -> In a (args F) ->
+    (in_range R (map f S) (f a) <-> in_range F S a).
+  Proof.
+    intros S a HS Ha. unfold in_range. split.
+    - intros [H|[z [Hz Hza]]].
+      + left. apply (in_map_inj S a HS Ha). exact H.
+      + right. apply in_map_iff in Hz. destruct Hz as [b [E Hb]]. subst z.
+        exists b. split; [exact Hb|]. apply (att_rename_iff b a (HS b Hb) Ha). exact Hza.
+    - intros [H|[b [Hb Hba]]].
+      + left. apply in_map. exact H.
+      + right. exists (f b). split; [apply in_map; exact Hb | apply att_rename; exact Hba].
+  Qed.
+
+  Lemma cfs_rename : forall S, incl S (args F) -> (cfs R (map f S) <-> cfs F S).
+  Proof.
+    intros S HS. unfold cfs. rewrite (cf_rename S HS). split.
+    - intros [_ H]. split; assumption.
+    - intros [_ H]. split; [apply incl_map_args; exact HS | exact H].
+  Qed.
+
+  Lemma adm_rename : forall S, incl S (args F) -> (adm R (map f S) <-> adm F S).
+  Proof.
+    intros S HS. unfold adm. rewrite (cf_rename S HS). split.
+    - intros [_ [Hc Hd]]. split; [exact HS|]. split; [exact Hc|]. intros a Ha.
+      apply (defends_rename S a HS (HS a Ha)). apply Hd. apply in_map. exact Ha.
+    - intros [_ [Hc Hd]]. split; [apply incl_map_args; exact HS|]. split; [exact Hc|].
+      intros x Hx. apply in_map_iff in Hx. destruct Hx as [a [E Ha]]. subst x.
+      apply (defends_rename S a HS (HS a Ha)). apply Hd. exact Ha.
+  Qed.
+
+  Lemma co_rename : forall S, incl S (args F) -> (co R (map f S) <-> co F S).
+  Proof.
+    intros S HS. unfold co. rewrite (adm_rename S HS). split.
+    - intros [Ha Hc]. split; [exact Ha|]. intros a Hin Hd.
+      apply (in_map_inj S a HS Hin). apply Hc.
+      + apply in_args_rename. exists a. split; [exact Hin | reflexivity].
+      + apply (defends_rename S a HS Hin). exact Hd.
+    - intros [Ha Hc]. split; [exact Ha|]. intros x Hin Hd.
+      apply in_args_rename in Hin. destruct Hin as [a [Hin E]]. subst x.
+      apply in_map. apply Hc; [exact Hin|]. apply (defends_rename S a HS Hin). exact Hd.
+  Qed.
+
+  Lemma st_rename : forall S, incl S (args F) -> (st R (map f S) <-> st F S).
+  Proof.
+    intros S HS. unfold st. rewrite (cf_rename S HS). split.
+    - intros [_ [Hc Hs]]. split; [exact HS|]. split; [exact Hc|]. intros a Hin Hn.
+      destruct (Hs (f a)) as [z [Hz Hza]].
+      + apply in_args_rename. exists a. split; [exact Hin | reflexivity].
+      + intros H. apply Hn. apply (in_map_inj S a HS Hin). exact H.
+      + apply in_map_iff in Hz. destruct Hz as [b [E Hb]]. subst z.
+        exists b. split; [exact Hb|]. apply (att_rename_iff b a (HS b Hb) Hin). exact Hza.
+    - intros [_ [Hc Hs]]. split; [apply incl_map_args; exact HS|]. split; [exact Hc|].
+      intros x Hin Hn. apply in_args_rename in Hin. destruct Hin as [a [Hin E]]. subst x.
+      destruct (Hs a Hin) as [b [Hb Hba]].
+      + intros H. apply Hn. apply in_map. exact H.
+      + exists (f b). split; [apply in_map; exact Hb | apply att_rename; exact Hba].
+  Qed.
+
+  Lemma range_incl_rename : forall S S', incl S (args F) -> incl S' (args F) ->
+    (range_incl R (map f S) (map f S') <-> range_incl F S S').
+  Proof.
+    intros S S' HS HS'. unfold range_incl. split.
+    - intros H a Hin Hr. apply (in_range_rename S' a HS' Hin). apply H.
+      + apply in_args_rename. exists a. split; [exact Hin | reflexivity].
+      + apply (in_range_rename S a HS Hin). exact Hr.
+    - intros H x Hin Hr. apply in_args_rename in Hin. destruct Hin as [a [Hin E]]. subst x.
+      apply (in_range_rename S' a HS' Hin). apply H; [exact Hin|].
+      apply (in_range_rename S a HS Hin). exact Hr.
+  Qed.
+
+  Lemma maxi_rename : forall (B : af -> list nat -> Prop) (le : af -> list nat -> list nat -> Prop),
+    (forall G S, B G S -> incl S (args G)) ->
+    (forall G S T, seteq S T -> B G S -> B G T) ->
+    (forall S, incl S (args F) -> (B R (map f S) <-> B F S)) ->
+    (forall G S T X, seteq S T -> le G S X -> le G T X) ->
+    (forall G S T X, seteq S T -> le G X S -> le G X T) ->
+    (forall S S', incl S (args F) -> incl S' (args F) ->
+       (le R (map f S) (map f S') <-> le F S S')) ->
+    forall S, incl S (args F) -> (maxi B le R (map f S) <-> maxi B le F S).
+  Proof.
+    intros B le Bincl Bseteq Bren le_l le_r le_ren S HS. unfold maxi. split.
+    - intros [HB Hm]. split; [apply (Bren S HS); exact HB|]. intros S' HS' Hle.
+      pose proof (Bincl _ _ HS') as I'.
+      apply (le_ren S' S I' HS). apply Hm.
+      + apply (Bren S' I'). exact HS'.
+      + apply (le_ren S S' HS I'). exact Hle.
+    - intros [HB Hm]. split; [apply (Bren S HS); exact HB|]. intros T HT Hle.
+      pose proof (pre_seteq T (Bincl _ _ HT)) as E. pose proof (pre_incl T) as I'.
+      apply (le_l R (map f (pre T)) T); [apply seteq_sym; exact E|].
+      apply (le_ren (pre T) S I' HS). apply Hm.
+      + apply (Bren (pre T) I'). apply (Bseteq R T); assumption.
+      + apply (le_ren S (pre T) HS I'). apply (le_r R T); assumption.
+  Qed.
+
+  Lemma pr_rename : forall S, incl S (args F) -> (pr R (map f S) <-> pr F S).
+  Proof.
+    apply (maxi_rename adm (fun _ S T => incl S T) adm_incl adm_seteq adm_rename).
+    - intros _ S0 T X E H. exact (seteq_incl_l S0 T X E H).
+    - intros _ S0 T X E H. exact (seteq_incl_r S0 T X E H).
+    - intros S0 S' H0 H'. apply incl_map_inj; assumption.
+  Qed.
+
+  Lemma sst_rename : forall S, incl S (args F) -> (sst R (map f S) <-> sst F S).
+  Proof.
+    apply (maxi_rename co range_incl co_incl co_seteq co_rename).
+    - intros G S0 T X E H. exact (range_incl_seteq_l G S0 T X E H).
+    - intros G S0 T X E H. exact (range_incl_seteq_r G S0 T X E H).
+    - exact range_incl_rename.
+  Qed.
+
+  Lemma stg_rename : forall S, incl S (args F) -> (stg R (map f S) <-> stg F S).
+  Proof.
+    apply (maxi_rename cfs range_incl cfs_incl cfs_seteq cfs_rename).
+    - intros G S0 T X E H. exact (range_incl_seteq_l G S0 T X E H).
+    - intros G S0 T X E H. exact (range_incl_seteq_r G S0 T X E H).
+    - exact range_incl_rename.
+  Qed.
+
+  Lemma gr_rename : forall S, incl S (args F) -> (gr R (map f S) <-> gr F S).
+  Proof.
+    intros S HS. unfold gr. rewrite (co_rename S HS). split.
+    - intros [Hc Hm]. split; [exact Hc|]. intros S' HS'. pose proof (co_incl F S' HS') as I'.
+      apply (incl_map_inj S S' HS I'). apply Hm. apply (co_rename S' I'). exact HS'.
+    - intros [Hc Hm]. split; [exact Hc|]. intros T HT.
+      pose proof (pre_seteq T (co_incl R T HT)) as E. pose proof (pre_incl T) as I'.
+      apply (seteq_incl_r (map f (pre T)) T _ (seteq_sym _ _ E)).
+      apply incl_map. apply Hm. apply (co_rename (pre T) I'). apply (co_seteq R T); assumption.
+  Qed.
+
+  Lemma idl_rename : forall S, incl S (args F) -> (idl R (map f S) <-> idl F S).
+  Proof.
+    intros S HS. unfold idl. rewrite (adm_rename S HS). split.
+    - intros [Ha [Hp Hm]]. split; [exact Ha|]. split.
+      + intros P HP. pose proof (adm_incl F P (proj1 HP)) as IP.
+        apply (incl_map_inj S P HS IP). apply Hp. apply (pr_rename P IP). exact HP.
+      + intros S' HS' Hall. pose proof (adm_incl F S' HS') as I'.
+        apply (incl_map_inj S' S I' HS). apply Hm; [apply (adm_rename S' I'); exact HS'|].
+        intros Q HQ. pose proof (pre_seteq Q (adm_incl R Q (proj1 HQ))) as E.
+        apply (seteq_incl_r (map f (pre Q)) Q _ (seteq_sym _ _ E)). apply incl_map.
+        apply Hall. apply (pr_rename (pre Q) (pre_incl Q)). apply (pr_seteq R Q); assumption.
+    - intros [Ha [Hp Hm]]. split; [exact Ha|]. split.
+      + intros Q HQ. pose proof (pre_seteq Q (adm_incl R Q (proj1 HQ))) as E.
+        apply (seteq_incl_r (map f (pre Q)) Q _ (seteq_sym _ _ E)). apply incl_map.
+        apply Hp. apply (pr_rename (pre Q) (pre_incl Q)). apply (pr_seteq R Q); assumption.
+      + intros T HT Hall. pose proof (pre_seteq T (adm_incl R T HT)) as E.
+        apply (seteq_incl_l (map f (pre T)) T _ (seteq_sym _ _ E)). apply incl_map.
+        apply Hm; [apply (adm_rename (pre T) (pre_incl T)); apply (adm_seteq R T); assumption|].
+        intros P HP. pose proof (adm_incl F P (proj1 HP)) as IP.
+        intros a Ha'. apply in_pre in Ha'. destruct Ha' as [Hin HfT].
+        apply (in_map_inj P a IP Hin). apply (Hall (map f P)); [|exact HfT].
+        apply (pr_rename P IP). exact HP.
+  Qed.
+
+  Theorem ext_rename : forall s S, incl S (args F) -> (ext s R (map f S) <-> ext s F S).
+  Proof.
+    intros s S HS. destruct s; cbn [ext].
+    - apply gr_rename; exact HS.
+    - apply co_rename; exact HS.
+    - apply pr_rename; exact HS.
+    - apply st_rename; exact HS.
+    - apply sst_rename; exact HS.
+    - apply stg_rename; exact HS.
+    - apply idl_rename; exact HS.
+  Qed.
+
+  Theorem ext_rename_inv : forall s T,
+    ext s R T -> exists S, ext s F S /\ seteq T (map f S).
+  Proof.
+    intros s T HT. pose proof (pre_seteq T (ext_incl s R T HT)) as E.
+    exists (pre T). split; [|exact E].
+    apply (ext_rename s (pre T) (pre_incl T)). apply (ext_seteq s R T); assumption.
+  Qed.
+
+  Corollary cred_rename : forall s A, incl A (args F) ->
+    (cred s R (map f A) <-> cred s F A).
+  Proof.
+    intros s A HA. unfold cred. split.
+    - intros [T [HT [x [HxA HxT]]]]. destruct (ext_rename_inv s T HT) as [S [HS E]].
+      exists S. split; [exact HS|]. apply in_map_iff in HxA. destruct HxA as [a [Ea Ha]]. subst x.
+      exists a. split; [exact Ha|].
+      apply (in_map_inj S a (ext_incl s F S HS) (HA a Ha)). apply (E (f a)). exact HxT.
+    - intros [S [HS [a [HaA HaS]]]]. exists (map f S).
+      split; [apply (ext_rename s S (ext_incl s F S HS)); exact HS|].
+      exists (f a). split; apply in_map; assumption.
+  Qed.
+
+  Corollary skep_rename : forall s A, incl A (args F) ->
+    (skep s R (map f A) <-> skep s F A).
+  Proof.
+    intros s A HA. unfold skep. split.
+    - intros H S HS. pose proof (ext_incl s F S HS) as IS.
+      destruct (H (map f S) (proj2 (ext_rename s S IS) HS)) as [x [HxA HxS]].
+      apply in_map_iff in HxA. destruct HxA as [a [Ea Ha]]. subst x.
+      exists a. split; [exact Ha|]. apply (in_map_inj S a IS (HA a Ha)). exact HxS.
+    - intros H T HT. destruct (ext_rename_inv s T HT) as [S [HS E]].
+      destruct (H S HS) as [a [HaA HaS]]. exists (f a).
+      split; [apply in_map; exact HaA | apply (E (f a)); apply in_map; exact HaS].
+  Qed.
+End Rename.
+
+(* ------------------------------------------------------------------ *)
+Print Assumptions ext_af_equiv.
+Print Assumptions cred_af_equiv.
+Print Assumptions skep_af_equiv.
+Print Assumptions pr_exists.
+Print Assumptions ext_split.
+Print Assumptions ext_union.
+Print Assumptions ext_union_app.
+Print Assumptions cred_union_left.
+Print Assumptions skep_union_left.
+Print Assumptions st_union_corner.
+Print Assumptions ext_big_union.
+Print Assumptions ext_rename.
+Print Assumptions ext_rename_inv.
+Print Assumptions cred_rename.
+Print Assumptions skep_rename.
